@@ -4,6 +4,7 @@
 (*                                                                         *)
 (* A file is a sequence of LINES.  Line kinds:                             *)
 (*   "blank"      empty or white-space only                                *)
+(*   "blankrun"   a run of 120 such lines (hundreds of bytes)               *)
 (*   "code"       code without a log statement and without a comment       *)
 (*   "attr"       an attribute line (#[cfg(...)], #[allow(...)]): code too  *)
 (*   "cmt"        an ordinary comment line                                 *)
@@ -42,7 +43,7 @@ TrailingLines == {"codetrail", "stmttrail", "sameline"}   \* a directive comment
 RECURSIVE NearestNonBlankAbove(_, _)
 NearestNonBlankAbove(lines, i) ==
   IF i <= 1 THEN 0
-  ELSE IF lines[i - 1] # "blank" THEN i - 1
+  ELSE IF lines[i - 1] \notin {"blank", "blankrun"} THEN i - 1
   ELSE NearestNonBlankAbove(lines, i - 1)
 
 Effect(lines, i) ==
